@@ -261,6 +261,35 @@ pub fn phase_reload(e: &E2e, keep: &[u8], remove: u8, add: u8, next_seq: u32) ->
     Ok(())
 }
 
+/// C19: a reload requested in the middle of a total outage - every listed uplink has been dead for longer than the
+/// all-links-failed timer (10 s after the last one timed out), so every housekeeping pass ends in its error branch -
+/// is still a valid reload: the new, working address it lists must come up.
+pub fn phase_reload_outage(e: &E2e, addrs: &[u8], add: u8) -> CheckResult {
+    {
+        let mut p = e.policy.lock().unwrap();
+        for a in addrs {
+            p.muted.insert(*a);
+        }
+    }
+    // liveness timeout 2 s + all-links-failed timer 10 s + two passes
+    std::thread::sleep(Duration::from_millis(2000 + 10_000 + 2500));
+    let mut list: Vec<u8> = addrs.to_vec();
+    list.push(add);
+    e.write_ips(&list);
+    let t = e.ms();
+    e.sighup();
+    let ok = e.wait_until(Duration::from_secs(16), |lg| lg.order.iter().any(|o| o.1 == add && o.4 >= t));
+    let r = (|| {
+        vensure!(ok, "e2e-reload-lost-in-outage", "real event loop: every listed uplink had been dead for > 12 s (all-links-failed state) when a reload added address {add}; the receiver heard nothing from that address within 16 s - the reload was never applied");
+        Ok(())
+    })();
+    let mut p = e.policy.lock().unwrap();
+    for a in addrs {
+        p.muted.remove(a);
+    }
+    r
+}
+
 /// C19: a reload requested while the start-up probe round is still open (one address does not answer its probe)
 /// is a valid reload like any other: it is applied, not lost.
 pub fn phase_reload_early(e: &E2e, keep: &[u8], remove: u8, add: u8) -> CheckResult {
@@ -794,6 +823,7 @@ pub fn phase_weak_stats(e: &E2e, addrs: &[u8]) -> CheckResult {
 pub enum Phase {
     WeakStats,
     ReloadEarly,
+    ReloadOutage,
     Handshake,
     ModeTicks,
     Recovery,
@@ -861,7 +891,7 @@ pub fn run(ctx: &Ctx, phase: Phase, scenarios: usize) {
             // recovery phases start with a 2 s timeout and raise it at run time (4 / 5 / 6 s): a loop that kept
             // using the start-up value would tear the link down early
             let recovery_timeout = 4000 + 1000 * ((z >> 24) % 3);
-            let timeout = if matches!(phase, Phase::Recovery | Phase::RecoveryEligibility) {
+            let timeout = if matches!(phase, Phase::Recovery | Phase::RecoveryEligibility | Phase::ReloadOutage) {
                 2000
             } else if phase == Phase::WeakStats {
                 60_000
@@ -910,6 +940,7 @@ pub fn run(ctx: &Ctx, phase: Phase, scenarios: usize) {
                 Phase::ModeTicks => phase_mode_ticks(&e, &addrs, classic),
                 Phase::WeakStats => phase_weak_stats(&e, &addrs),
                 Phase::ReloadEarly => phase_reload_early(&e, &addrs[..n_links - 1], addrs[n_links - 1], base + 30),
+                Phase::ReloadOutage => phase_uplink(&e, 1000, 100, 300).and_then(|_| phase_reload_outage(&e, &addrs, base + 30)),
                 Phase::Handshake => phase_handshake(&e, &addrs, lost_reg1, (z >> 30) & 1 == 1),
                 Phase::Recovery => phase_recovery(&e, &addrs, recovery_timeout, 8),
                 Phase::RecoveryEligibility => phase_recovery(&e, &addrs, recovery_timeout, 4),
